@@ -35,6 +35,7 @@ func TestVerifReplay(t *testing.T) {
 		"VerifC02TxThorough":       VerifC02TxThorough,
 		"VerifC01Deep":             VerifC01Deep,
 		"VerifC01AnyStart":         VerifC01AnyStart,
+		"VerifC01Select":           VerifC01Select,
 		"VerifC17AnyStart":         VerifC17AnyStart,
 		"VerifC01FrozenClaim":      VerifC01FrozenClaim,
 	})
